@@ -11,7 +11,7 @@
 (* two projections are computed by the specification from the mutations    *)
 (* the real code performed; at every "wend" the computed disk must equal   *)
 (* the real one (the *Agree invariants).                                   *)
-EXTENDS RepoFiles, PubNames, Json, IOUtils
+EXTENDS RepoFiles, PubServerNames, Json, IOUtils
 
 Rec == ndJsonDeserialize(IOEnv.TRACE)
 
